@@ -308,3 +308,47 @@ def _bounded_row_count(tier="quick", seed=0):
 
 
 EXTRA_CHECKS = {"C05": _bounded_row_count}
+
+
+# ------------------------------------------------------------------------------------------------ initialisation (C07)
+# Contract on the body of `for i, obj in enumerate(b_objs)` of Population.initialize_compartments for a characteristic with a
+# denominator: the target value is  value * y_factor * meta_y_factor  of the characteristic times the same product of its
+# denominator (every factor taken from the right parameter).  ParameterSet lookups are external: stubbed by ghost values.
+def _b_env(it):
+    from pyvc.interp import PyObjV
+    from pyvc.core import Opaque
+    from pyvc import source
+
+    m = source.load("model")
+    denom = PyObjV("Characteristic", m, {"name": "denominator", "denominator": None})
+    obj = PyObjV("Characteristic", m, {"name": "charac", "denominator": denom})
+    selfp = PyObjV("Population", m, {"name": "pop"})
+    return {"obj": obj, "self": selfp, "parset": Opaque("parset"), "t_init": 2000.0, "comp_indices": {}, "A": Opaque("A"), "PAR": Opaque("par"), "DPAR": Opaque("denom_par"), "NOCOMPS": []}
+
+
+CONTRACTS["model:Population.initialize_compartments#target_of_fraction"] = dict(
+    schema=schema, fragment={"iter": "enumerate(b_objs)"}, make_env=_b_env,
+    params={"b": "arr1", "i": "int"},
+    ghost_params={"V": "real", "YF": "real", "MYF": "real", "DV": "real", "DYF": "real", "DMYF": "real"},
+    stubs={"parset.pars[obj.name]": "PAR", "parset.pars[obj.denominator.name]": "DPAR", "obj.get_included_comps()": "NOCOMPS",
+           "par.interpolate(t_init, pop_name=self.name)[0]": "V", "par.y_factor[self.name]": "YF", "par.meta_y_factor": "MYF",
+           "denom_par.interpolate(t_init, pop_name=self.name)[0]": "DV", "denom_par.y_factor[self.name]": "DYF", "denom_par.meta_y_factor": "DMYF"},
+    requires=["0 <= i", "i < len(b)"],
+    ensures=[("C07.fraction_target_is_value_times_factors_times_calibrated_denominator", "b[i] == V * YF * MYF * (DV * DYF * DMYF)")],
+    defined_props=["C07"])
+
+
+# Characteristic.update: value = sum of the included quantities, divided by the denominator (0 for 0/0, inf for x/0)
+CONTRACTS["model:Characteristic.update"] = dict(
+    schema=schema,
+    schema_override={"Characteristic": {"includes": "list:Compartment", "denominator": "ref?:Compartment"}},
+    params={"ti": "int"},
+    requires=["0 <= ti", "self._vals is not None", "ti < len(self._vals)",
+              "all(not isinstance(c, TimedCompartment) and ti < len(c.vals) and c.vals[ti] >= 0 for c in self.includes)",   # (timed members: the row sum, covered by C01 row contracts)
+              "self.denominator is None or (not isinstance(self.denominator, TimedCompartment) and ti < len(self.denominator.vals) and self.denominator.vals[ti] > 0)"],
+    modifies=["self._vals[ti]"],
+    ensures=[
+        ("C07.characteristic_is_sum_of_members", "implies(self.denominator is None, self._vals[ti] == sum(c.vals[ti] for c in self.includes))"),
+        ("C07.characteristic_is_sum_over_denominator", "implies(self.denominator is not None, self._vals[ti] * self.denominator.vals[ti] == sum(c.vals[ti] for c in self.includes))"),
+    ],
+    frame_props=["C07"], defined_props=["C07"])
